@@ -1,0 +1,13 @@
+//go:build verif
+
+// Contracts for /verif/govc (comment-only; see /verif/DESIGN.md section 3.2).
+package dcs
+
+//@ func (*app/dcs.OptimizationClusterAdapter).GetNode
+//@   requires nonnil [safety]: ocs != nil
+//@   ensures C19.getnode [C19]: result != nil ==> hastype(result, "*mysql.Node") && unbox(result, "*mysql.Node") != nil && unbox(result, "*mysql.Node").host == hostname
+//@   ensures C19.getnode_registered [C19]: result != nil <==> (has(ocs.cluster.haNodes, hostname) || has(ocs.cluster.cascadeNodes, hostname))
+//@   ensures C19.getnode_pure [C19]: tick == old(tick)
+
+//@ func (*app/dcs.OptimizationClusterAdapter).GetMaster
+//@   flags inline
